@@ -1,14 +1,297 @@
-"""ForthMachine32 / ForthMachine64 (src/python/forth.cpp) -- placeholder."""
+"""ForthMachine32 / ForthMachine64 (src/python/forth.cpp)."""
 from __future__ import absolute_import
 
-_MSG = "akext: %s needs the Forth section of the bridge, which is not wired yet"
+import numpy
+
+from akext import _lib
+from akext import content as _content
+from akext import index as _index
+from akext._util import (FILENAME, arg_int64, arg_bool, arg_double, arg_string, cast_string, _badarg, _load_int)
 
 
-class ForthMachine32(object):
-    def __init__(self, *args, **kwargs):
-        raise NotImplementedError(_MSG % "ForthMachine32")
+def _fn(line):
+    return FILENAME("forth.cpp", line)
 
 
-class ForthMachine64(object):
-    def __init__(self, *args, **kwargs):
-        raise NotImplementedError(_MSG % "ForthMachine64")
+_ERRNAMES = ["none", "not ready", "is done", "user halt", "recursion depth exceeded", "stack underflow",
+             "stack overflow", "read beyond", "seek beyond", "skip beyond", "rewind beyond", "division by zero",
+             "varint too big"]
+# ForthError enumerators in the order of the raise_* keyword arguments
+_RAISE_FLAGS = [("raise_user_halt", 3), ("raise_recursion_depth_exceeded", 4), ("raise_stack_underflow", 5),
+                ("raise_stack_overflow", 6), ("raise_read_beyond", 7), ("raise_seek_beyond", 8),
+                ("raise_skip_beyond", 9), ("raise_rewind_beyond", 10), ("raise_division_by_zero", 11),
+                ("raise_varint_too_big", 12)]
+
+
+def _bind_flags(what, names, args, kwargs, defaults):
+    if len(args) > len(names):
+        raise TypeError("%s(): incompatible function arguments" % what)
+    bound = dict(defaults)
+    for n, a in zip(names, args):
+        bound[n] = a
+    for k, v in kwargs.items():
+        if k not in names or k in names[:len(args)]:
+            raise TypeError("%s(): incompatible function arguments" % what)
+        bound[k] = v
+    for n in names:
+        if n not in bound:
+            raise TypeError("%s(): incompatible function arguments" % what)
+    return bound
+
+
+_FLAG_NAMES = [n for n, _ in _RAISE_FLAGS]
+_FLAG_DEFAULTS = dict((n, True) for n in _FLAG_NAMES)
+
+
+class _ForthMachine(object):
+    __slots__ = ("_h", "__weakref__")
+    _is64 = None
+    _bits = None
+
+    def __init__(self, source, stack_size=1024, recursion_depth=1024, output_initial_size=1024,
+                 output_resize_factor=1.5):
+        w = type(self).__name__
+        source = arg_string(source, w)
+        self._h = _lib.ptr(_lib.L.akp_forth_new(self._is64, source, len(source), arg_int64(stack_size, w),
+                                                arg_int64(recursion_depth, w), arg_int64(output_initial_size, w),
+                                                arg_double(output_resize_factor, w)))
+
+    def __del__(self):
+        h = getattr(self, "_h", None)
+        if h and _lib.L is not None:
+            self._h = None
+            _lib.L.akp_forth_free(h)
+
+    def _num(self, which):
+        return _lib.okint(_lib.L.akp_forth_number, self._h, which)
+
+    def _is(self, which, word, what):
+        return bool(_lib.rc(_lib.L.akp_forth_is(self._h, which, arg_string(word, what))))
+
+    def __getitem__(self, key):
+        ckey = arg_string(key, "__getitem__")
+        L = _lib.L
+        if _lib.rc(L.akp_forth_is(self._h, 0, ckey)):
+            return _lib.okint(L.akp_forth_variable_at, self._h, ckey)
+        elif _lib.rc(L.akp_forth_is(self._h, 2, ckey)):
+            return _content._boxc(L.akp_forth_output_NumpyArray(self._h, ckey))
+        elif _lib.rc(L.akp_forth_is(self._h, 3, ckey)):
+            dictionary = self.dictionary
+            skey = ckey.decode("utf-8", "surrogateescape")
+            index = 0
+            while index < len(dictionary):
+                if dictionary[index] == skey:
+                    break
+                index += 1
+            bytecodes = _lib.ptr(L.akp_forth_bytecodes(self._h))
+            try:
+                return _content._boxc(L.akp_getitem_at_nowrap(bytecodes, index + 1))
+            finally:
+                _content._free(bytecodes)
+        else:
+            raise ValueError("unrecognized AwkwardForth variable/output/dictionary word: "
+                             + ckey.decode("utf-8", "surrogateescape") + _fn(134))
+
+    source = property(lambda self: _lib.string(_lib.L.akp_forth_source(self._h)))
+    bytecodes = property(lambda self: _content._sharec(_lib.L.akp_forth_bytecodes(self._h)))
+    decompiled = property(lambda self: _lib.string(_lib.L.akp_forth_decompiled(self._h)))
+
+    @property
+    def dictionary(self):
+        _lib.rc(_lib.L.akp_forth_dictionary(self._h))
+        return _lib.strs()
+
+    stack_max_depth = property(lambda self: self._num(0))
+    recursion_max_depth = property(lambda self: self._num(1))
+    output_initial_size = property(lambda self: self._num(2))
+    output_resize_factor = property(lambda self: _lib.L.akp_forth_output_resize_factor(self._h))
+
+    @property
+    def stack(self):
+        _lib.rc(_lib.L.akp_forth_stack(self._h))
+        return _lib.ints()
+
+    def stack_push(self, value):
+        lo, hi = -(1 << (self._bits - 1)), (1 << (self._bits - 1)) - 1
+        ok, v = _load_int(value, lo, hi)
+        if not ok:
+            raise _badarg("stack_push", value, "int")
+        if not self._num(12):
+            raise ValueError("AwkwardForth stack overflow" + _fn(157))
+        _lib.rc(_lib.L.akp_forth_stack_push(self._h, v))
+
+    def stack_pop(self):
+        if not self._num(13):
+            raise ValueError("AwkwardForth stack underflow" + _fn(164))
+        return _lib.okint(_lib.L.akp_forth_stack_pop, self._h)
+
+    def stack_clear(self):
+        _lib.rc(_lib.L.akp_forth_stack_clear(self._h))
+
+    def string_at(self, at):
+        return _lib.string(_lib.L.akp_forth_string_at(self._h, arg_int64(at, "string_at")))
+
+    @property
+    def variables(self):
+        _lib.rc(_lib.L.akp_forth_variables(self._h))
+        return dict(zip(_lib.strs(), _lib.ints()))
+
+    def input_position(self, name):
+        return _lib.okint(_lib.L.akp_forth_input_position, self._h, arg_string(name, "input_position"))
+
+    @property
+    def outputs(self):
+        _lib.rc(_lib.L.akp_forth_output_index(self._h))
+        out = {}
+        for name in _lib.strs():
+            out[name] = _content._boxc(_lib.L.akp_forth_output_NumpyArray(self._h, _lib.cstr(name)))
+        return out
+
+    def output_NumpyArray(self, name):
+        return _content._boxc(_lib.L.akp_forth_output_NumpyArray(self._h, arg_string(name, "output_NumpyArray")))
+
+    def _output_index(self, name, kind, what):
+        return _index.wrap(_lib.ptr(_lib.L.akp_forth_output_Index(self._h, arg_string(name, what), kind)))
+
+    def output_Index8(self, name):
+        return self._output_index(name, 0, "output_Index8")
+
+    def output_IndexU8(self, name):
+        return self._output_index(name, 1, "output_IndexU8")
+
+    def output_Index32(self, name):
+        return self._output_index(name, 2, "output_Index32")
+
+    def output_IndexU32(self, name):
+        return self._output_index(name, 3, "output_IndexU32")
+
+    def output_Index64(self, name):
+        return self._output_index(name, 4, "output_Index64")
+
+    def reset(self):
+        _lib.rc(_lib.L.akp_forth_reset(self._h))
+
+    def _stage_inputs(self, inputs, what):
+        if not isinstance(inputs, dict):
+            raise _badarg(what, inputs, "dict")
+        L = _lib.L
+        L.akp_forth_inputs_clear(self._h)
+        try:
+            for key, value in inputs.items():
+                name = cast_string(key)
+                writable = bool(_lib.rc(L.akp_forth_input_must_be_writable(self._h, name)))
+                # pair.second.cast<py::buffer>().request(writable)
+                try:
+                    view = memoryview(value)
+                except TypeError:
+                    raise RuntimeError("Unable to cast Python instance to C++ type 'buffer'")
+                if writable and view.readonly:
+                    raise BufferError("Object is not writable.")
+                length = view.itemsize
+                for x in view.shape:
+                    length *= x
+                if isinstance(value, numpy.ndarray):
+                    address = value.ctypes.data
+                else:
+                    flat = numpy.frombuffer(view, dtype=numpy.uint8) if view.contiguous else numpy.asarray(view)
+                    address = flat.ctypes.data
+                _lib.rc(L.akp_forth_input_add(self._h, name, address, length, id(value)))
+        except BaseException:
+            L.akp_forth_inputs_clear(self._h)
+            raise
+
+    def _maybe_throw(self, err, flags):
+        if err < 0:
+            _lib.raise_error()
+        mask = 0
+        for name, code in _RAISE_FLAGS:
+            if not flags[name]:
+                mask |= 1 << code
+        _lib.rc(_lib.L.akp_forth_maybe_throw(self._h, err, mask))
+        if err == 0:
+            return None
+        if 0 < err < len(_ERRNAMES):
+            return _ERRNAMES[err]
+        raise ValueError("unrecognized ForthError: " + str(err) + _fn(92))
+
+    def begin(self, inputs=None):
+        if inputs is None:
+            inputs = {}
+        self._stage_inputs(inputs, "begin")
+        _lib.rc(_lib.L.akp_forth_begin(self._h))
+
+    def step(self, *args, **kwargs):
+        flags = _bind_flags("step", _FLAG_NAMES, args, kwargs, _FLAG_DEFAULTS)
+        flags = dict((k, arg_bool(v, "step")) for k, v in flags.items())
+        err = _lib.L.akp_forth_step(self._h)
+        return self._maybe_throw(err, flags)
+
+    def run(self, *args, **kwargs):
+        names = ["inputs"] + _FLAG_NAMES
+        bound = _bind_flags("run", names, args, kwargs, dict(_FLAG_DEFAULTS, inputs=None))
+        inputs = bound.pop("inputs")
+        if inputs is None:
+            inputs = {}
+        flags = dict((k, arg_bool(v, "run")) for k, v in bound.items())
+        self._stage_inputs(inputs, "run")
+        _lib.rc(_lib.L.akp_forth_begin(self._h))
+        err = _lib.L.akp_forth_resume(self._h)
+        return self._maybe_throw(err, flags)
+
+    def resume(self, *args, **kwargs):
+        flags = _bind_flags("resume", _FLAG_NAMES, args, kwargs, _FLAG_DEFAULTS)
+        flags = dict((k, arg_bool(v, "resume")) for k, v in flags.items())
+        err = _lib.L.akp_forth_resume(self._h)
+        return self._maybe_throw(err, flags)
+
+    def call(self, *args, **kwargs):
+        names = ["name"] + _FLAG_NAMES
+        bound = _bind_flags("call", names, args, kwargs, _FLAG_DEFAULTS)
+        name = arg_string(bound.pop("name"), "call")
+        flags = dict((k, arg_bool(v, "call")) for k, v in bound.items())
+        err = _lib.L.akp_forth_call(self._h, name)
+        return self._maybe_throw(err, flags)
+
+    current_bytecode_position = property(lambda self: self._num(3))
+    current_recursion_depth = property(lambda self: self._num(4))
+    current_instruction = property(lambda self: _lib.string(_lib.L.akp_forth_current_instruction(self._h)))
+
+    def count_reset(self):
+        _lib.rc(_lib.L.akp_forth_count_reset(self._h))
+
+    count_instructions = property(lambda self: self._num(5))
+    count_reads = property(lambda self: self._num(6))
+    count_writes = property(lambda self: self._num(7))
+    count_nanoseconds = property(lambda self: self._num(8))
+
+    def is_variable(self, word):
+        return self._is(0, word, "is_variable")
+
+    def is_input(self, word):
+        return self._is(1, word, "is_input")
+
+    def is_output(self, word):
+        return self._is(2, word, "is_output")
+
+    def is_defined(self, word):
+        return self._is(3, word, "is_defined")
+
+    is_ready = property(lambda self: bool(self._num(9)))
+    is_done = property(lambda self: bool(self._num(10)))
+    is_segment_done = property(lambda self: bool(self._num(11)))
+
+
+class ForthMachine32(_ForthMachine):
+    __slots__ = ()
+    _is64 = 0
+    _bits = 32
+
+
+class ForthMachine64(_ForthMachine):
+    __slots__ = ()
+    _is64 = 1
+    _bits = 64
+
+
+ForthMachine32.__module__ = "awkward._ext"
+ForthMachine64.__module__ = "awkward._ext"
